@@ -270,6 +270,7 @@ def regex_relation(r1, r2):
     return _REGEX_REL[key][0]
 
 
+_IDENTITY_REFS = {}  # identity-only values -> heap reference (one numbering per process)
 MODEL_REUSE = not os.environ.get("PYVC_NO_MODEL_REUSE")  # fallback switch used by run_check.py when a worker dies
 FOLD_REGISTRY = {}  # fold-step hash -> (kinds, accumulators, index, results): the steps met while verifying one contract
 
@@ -580,9 +581,14 @@ class Interp:
         if isinstance(v, ClassVal):
             key = ("class", v.cls)
         if key not in self.singletons:
-            self.next_ref += 1
-            self.singletons[key] = (self.next_ref, v)
-            self.heap[self.next_ref] = v
+            # values that only need an identity (classes, functions, builtins) get their references from a
+            # range of their own, keyed per process: evaluating one more `isinstance(x, C)` must not shift
+            # the references of the objects the program allocates (the two sides of a comparison have to
+            # number those the same way)
+            pkey = ("class", v.cls.__module__, v.cls.__qualname__) if isinstance(v, ClassVal) else ("id", id(v))
+            ref = _IDENTITY_REFS.setdefault(pkey, 500000 + len(_IDENTITY_REFS))
+            self.singletons[key] = (ref, v)
+            self.heap[ref] = v
         return Py.obj(z3.IntVal(self.singletons[key][0]))
 
     def truth(self, v):
